@@ -36,6 +36,8 @@ def _env() -> Dict[str, str]:
     env = dict(os.environ)
     env["PYTHONHASHSEED"] = "0"
     env["PYTHONPATH"] = str(common.VERIF) + os.pathsep + env.get("PYTHONPATH", "")
+    if str(common.REPO) != "/repo":
+        env["PYTHONPATH"] = str(common.REPO) + os.pathsep + env["PYTHONPATH"]
     env["PYTHONDONTWRITEBYTECODE"] = "1"
     env["AAS_CORE_CODEGEN_VERIF"] = "1"
     return env
